@@ -53,6 +53,10 @@ META = {
                 text="contracts: part proved, part bounded. Proved for all extents and coordinate contents of every enumerated DataArray / list structure (1-3 sample dims x 1-3 feature dims x orders, sample/feature MultiIndex, flags, lists of 2-3): inverse_transform_data(fit_transform(X)) has the input's dims in the input's order, the input's labels per dim, restored index kinds and values equal to X's (z3); components come back with feature dims + mode and the input's feature labels, scores with sample dims + mode; user inputs not mutated. Bounded: Dataset containers (equal/different dim sets), unsorted/string/datetime/MultiIndex coordinates, extra non-index coordinates, custom names, Preprocessor and EOF level.",
                 note="assumed: xarray structural laws as modelled (vf/sym/ldom.py); Dataset stacking internals only exercised; known findings: Datasets with variables of different dim sets, lists with the sample dim at different axis positions; bounded: 112 (quick) / ~870 (thorough) round trips",
                 ref="5/C02"),
+    "C12": dict(level="other", technique="contract-based deductive verification of effect contracts: the real Preprocessor chain, Decomposer.fit, EOF._fit_algorithm, EOFRotator._fit_algorithm and DataContainer.compute traced on lazy proxies whose forcing operations are logged; bounded counting-scheduler runs on real dask-backed fits as labelled stand-in",
+                text="contracts: part proved, part bounded. Proved: with a lazy input, compute=False and check_nans=False no force/compute event occurs in the preprocessing chain (4 structure classes), the decomposer (all solver settings; the dask back end receives compute=False), the EOF algorithm and the EOF rotator (power 1 and >1); results stay lazy; input data is stored non-computable; DataContainer.compute is one joint compute over exactly the computable entries. Bounded: chunk layouts x synchronous/threaded scheduler under a counting scheduler for EOF, SparsePCA, ExtendedEOF, MCA, POP, OPA and rotators; equality with the in-memory fit; repeated compute().",
+                note="assumed: the forcing table of the proxies; dask evaluates to the same values under any scheduler; BaseModel.compute's serialise/rebuild only exercised; known findings: POP and OPA compute during a deferred fit; bounded: 40 (quick) / 70 (thorough) fits",
+                ref="5/C12"),
 }
 NA_REASON = "no check registered yet in this snapshot of /verif (build in progress; see DESIGN.md section 5 for the plan)"
 
